@@ -22,6 +22,7 @@ mod pipe;
 mod rand;
 mod color;
 mod xform;
+mod angle;
 
 use std::io::{BufRead, BufWriter, Write};
 
@@ -72,6 +73,7 @@ fn subsystem(name: &str) -> Option<(GenFn, ExecFn)> {
         "rand" => (rand::gen, rand::exec),
         "color" => (color::gen, color::exec),
         "xform" => (xform::gen, xform::exec),
+        "angle" => (angle::gen, angle::exec),
         _ => return None,
     })
 }
